@@ -1,14 +1,528 @@
-//! probe (temporary)
+//! C16 scenario: untrusted input never brings the daemon down.
+//!
+//! Part A (correspondence, evaluated in Coq against coq/parse/*): Krill's own
+//! parsers / arithmetic on client-controlled values, each called under
+//! `catch_unwind` on structured mutations of valid notations and on random
+//! strings; every call is written as a `case` term for parse/ParseCheck.v.
+//!
+//! Part B-D (exploration evidence, NOT covered by the Coq model): `catch_unwind`
+//! fuzzing of serde_json decoding of the API request types, of the CMS / XML
+//! decoders behind RFC 6492 / RFC 8181 / RFC 8183 and of the two protocol entry
+//! points of a live in-process CA + publication server. Any caught panic is an
+//! `impl_failures` record with the input hex-encoded.
+use std::collections::{BTreeMap, BTreeSet};
+use std::io::Write;
+use std::panic::{self, AssertUnwindSafe};
 use std::str::FromStr;
-fn main() {
-    std::panic::set_hook(Box::new(|_| {}));
-    for s in ["€", "a€", "AS1", "1", "as€", "é1"] {
-        let r = std::panic::catch_unwind(|| rpki::repository::resources::Asn::from_str(s).is_ok());
-        println!("Asn::from_str({s:?}) -> {r:?}");
-        let r = std::panic::catch_unwind(|| krill::api::aspa::AspaDefinition::from_str(&format!("{s} => 1")).is_ok());
-        println!("AspaDefinition::from_str({s:?} => 1) -> {r:?}");
-        let j = format!("{{\"asn\": \"{s}\", \"ipv4\": \"\", \"ipv6\": \"\"}}");
-        let r = std::panic::catch_unwind(|| serde_json::from_str::<rpki::repository::resources::ResourceSet>(&j).is_ok());
-        println!("ResourceSet json {j} -> {r:?}");
+use std::sync::Mutex;
+use std::sync::atomic::{AtomicU64, Ordering};
+
+use serde_json::{Value, json};
+
+use kvh::util::{Args, CaseWriter, Rng, write_json};
+
+mod c16x;
+
+//------------------------------------------------------------------ panic capture
+
+pub static LAST_PANIC: Mutex<Option<(String, String)>> = Mutex::new(None);
+pub static PANIC_COUNT: AtomicU64 = AtomicU64::new(0);
+
+fn norm_path(p: &str) -> String {
+    if let Some(i) = p.find("/registry/src/") {
+        let rest = &p[i + "/registry/src/".len()..];
+        return rest.split_once('/').map(|x| x.1).unwrap_or(rest).to_string();
     }
+    if let Some(rest) = p.strip_prefix("/rustc/") {
+        return format!("std:{}", rest.split_once('/').map(|x| x.1).unwrap_or(rest));
+    }
+    if let Some(i) = p.find("/src/") {
+        if p.starts_with('/') { return format!("krill:{}", &p[i + 1..]) }
+    }
+    if p.starts_with("src/") { return format!("krill:{p}") }
+    p.to_string()
+}
+
+fn install_hook() {
+    panic::set_hook(Box::new(|info| {
+        let msg = if let Some(s) = info.payload().downcast_ref::<&str>() { s.to_string() }
+            else if let Some(s) = info.payload().downcast_ref::<String>() { s.clone() }
+            else { "<non-string panic payload>".to_string() };
+        let site = info.location().map(|l| format!("{}:{}", norm_path(l.file()), l.line())).unwrap_or_else(|| "?".into());
+        *LAST_PANIC.lock().unwrap_or_else(|e| e.into_inner()) = Some((msg, site));
+        PANIC_COUNT.fetch_add(1, Ordering::SeqCst);
+    }));
+}
+
+pub struct Caught { pub msg: String, pub site: String }
+
+/// Runs `f`; a panic is returned as its message and normalised source location.
+pub fn guarded<T>(f: impl FnOnce() -> T) -> Result<T, Caught> {
+    *LAST_PANIC.lock().unwrap_or_else(|e| e.into_inner()) = None;
+    match panic::catch_unwind(AssertUnwindSafe(f)) {
+        Ok(v) => Ok(v),
+        Err(_) => {
+            let (msg, site) = LAST_PANIC.lock().unwrap_or_else(|e| e.into_inner()).take()
+                .unwrap_or_else(|| ("<no message>".into(), "?".into()));
+            Err(Caught { msg, site })
+        }
+    }
+}
+
+/// A panic that exists only in builds with overflow checks / debug assertions.
+pub fn is_debug_only(c: &Caught) -> bool {
+    (c.msg.starts_with("attempt to ") && c.msg.contains("overflow"))
+        || (c.msg.starts_with("assertion failed: Ident::check_bytes") && c.site.contains("storage/ident.rs"))
+}
+
+pub fn hex(b: &[u8]) -> String { b.iter().map(|x| format!("{x:02x}")).collect() }
+
+//------------------------------------------------------------------ canonical values
+
+#[derive(Clone, Debug, PartialEq)]
+enum CVal { N(u128), B(Vec<u8>), L(Vec<CVal>) }
+
+impl CVal {
+    fn coq(&self) -> String {
+        match self {
+            CVal::N(n) => format!("CN {n}"),
+            CVal::B(b) => format!("CB {}", coq_bytes(b)),
+            CVal::L(l) => format!("CL [{}]", l.iter().map(|x| x.coq()).collect::<Vec<_>>().join("; ")),
+        }
+    }
+    fn opt_n(o: Option<u128>) -> CVal { CVal::L(o.map(CVal::N).into_iter().collect()) }
+    fn opt_s(o: Option<&str>) -> CVal { CVal::L(o.map(|s| CVal::B(s.as_bytes().to_vec())).into_iter().collect()) }
+}
+
+fn coq_bytes(b: &[u8]) -> String { format!("[{}]", b.iter().map(|x| x.to_string()).collect::<Vec<_>>().join(";")) }
+
+enum Obs { Ok(CVal), Err, Panic(Caught), DbgPanic(Caught) }
+
+impl Obs {
+    fn coq(&self) -> String {
+        match self {
+            Obs::Ok(v) => format!("(OOk ({}))", v.coq()),
+            Obs::Err => "OErr".into(),
+            Obs::Panic(_) => "OPanic".into(),
+            Obs::DbgPanic(_) => "ODbgPanic".into(),
+        }
+    }
+    fn class(&self) -> &'static str {
+        match self { Obs::Ok(_) => "ok", Obs::Err => "err", Obs::Panic(_) => "PANIC", Obs::DbgPanic(_) => "debug-only-panic" }
+    }
+}
+
+//------------------------------------------------------------------ the real functions
+
+use krill::api::roa::{AsNumber, Ipv4Prefix, Ipv6Prefix, RoaConfiguration, RoaConfigurationUpdates, RoaPayload, TypedPrefix};
+use krill::commons::storage::Ident;
+use rpki::repository::resources::Asn;
+
+#[derive(Clone, Copy, Debug, PartialEq, Eq, PartialOrd, Ord)]
+enum Fn {
+    AsNumber, TypedPrefix, Ipv4Prefix, Ipv6Prefix, Payload, Config, Updates, Announcement,
+    MaxLenValid, NrSpecific, Resize, AggKey,
+    Ident, StrOrReplace, PushConverted, FromHandle, PushHandle, ToHandle, SplitKey,
+    CertName, RpkiAsn, Aspa, BgpsecKey,
+}
+
+const ALL_FNS: [Fn; 23] = [
+    Fn::AsNumber, Fn::TypedPrefix, Fn::Ipv4Prefix, Fn::Ipv6Prefix, Fn::Payload, Fn::Config, Fn::Updates, Fn::Announcement,
+    Fn::MaxLenValid, Fn::NrSpecific, Fn::Resize, Fn::AggKey,
+    Fn::Ident, Fn::StrOrReplace, Fn::PushConverted, Fn::FromHandle, Fn::PushHandle, Fn::ToHandle, Fn::SplitKey,
+    Fn::CertName, Fn::RpkiAsn, Fn::Aspa, Fn::BgpsecKey,
+];
+
+impl Fn {
+    fn coq(self) -> String { format!("F{self:?}") }
+    /// Does the real function take arbitrary bytes (true) or a `&str` (false)?
+    fn takes_bytes(self) -> bool { matches!(self, Fn::Ident | Fn::ToHandle) }
+}
+
+fn asn_u(a: AsNumber) -> u128 { Asn::from(a).into_u32() as u128 }
+fn pfx_val(p: TypedPrefix) -> CVal {
+    match p {
+        TypedPrefix::V4(v) => CVal::L(vec![CVal::N(4), CVal::N(v.addr().to_bits() as u128), CVal::N(v.addr_len() as u128)]),
+        TypedPrefix::V6(v) => CVal::L(vec![CVal::N(6), CVal::N(v.addr().to_bits()), CVal::N(v.addr_len() as u128)]),
+    }
+}
+fn payload_val(p: &RoaPayload) -> CVal {
+    CVal::L(vec![CVal::N(asn_u(p.asn)), pfx_val(p.prefix), CVal::opt_n(p.max_length.map(|x| x as u128))])
+}
+fn config_val(c: &RoaConfiguration) -> CVal { CVal::L(vec![payload_val(&c.payload), CVal::opt_s(c.comment.as_deref())]) }
+
+fn x_ident() -> &'static Ident { const { Ident::make("x") } }
+
+struct World {
+    cert: rpki::repository::cert::Cert,
+    mem_seed: u64,
+}
+
+/// Calls the real function. `None`: the input is not in the function's domain
+/// (not UTF-8 for a `&str` parameter, not an `Ident` for a stored key, not a URI path).
+fn call(world: &mut World, f: Fn, input: &[u8]) -> Option<Result<Option<CVal>, Caught>> {
+    let s: &str = if f.takes_bytes() { "" } else { std::str::from_utf8(input).ok()? };
+    // Option<CVal>: Some = Ok(value), None = Err
+    let r: Result<Option<CVal>, Caught> = match f {
+        Fn::AsNumber => guarded(|| AsNumber::from_str(s).ok().map(|a| CVal::N(asn_u(a)))),
+        Fn::TypedPrefix => guarded(|| TypedPrefix::from_str(s).ok().map(pfx_val)),
+        Fn::Ipv4Prefix => guarded(|| Ipv4Prefix::from_str(s).ok().map(|p| pfx_val(TypedPrefix::V4(p)))),
+        Fn::Ipv6Prefix => guarded(|| Ipv6Prefix::from_str(s).ok().map(|p| pfx_val(TypedPrefix::V6(p)))),
+        Fn::Payload => guarded(|| RoaPayload::from_str(s).ok().map(|p| payload_val(&p))),
+        Fn::Config => guarded(|| RoaConfiguration::from_str(s).ok().map(|c| config_val(&c))),
+        Fn::Updates => guarded(|| RoaConfigurationUpdates::from_str(s).ok().map(|u| CVal::L(vec![
+            CVal::L(u.added.iter().map(config_val).collect()), CVal::L(u.removed.iter().map(payload_val).collect())]))),
+        Fn::Announcement => guarded(|| krill::api::bgp::Announcement::from_str(s).ok().map(|a| CVal::L(vec![CVal::N(asn_u(a.asn)), pfx_val(a.prefix)]))),
+        Fn::MaxLenValid => guarded(|| RoaPayload::from_str(s).ok().map(|p| CVal::N(p.max_length_valid() as u128))),
+        Fn::NrSpecific => guarded(|| RoaPayload::from_str(s).ok().map(|p| CVal::N(p.nr_of_specific_prefixes()))),
+        Fn::Resize => guarded(|| RoaPayload::from_str(s).ok().and_then(|p| p.max_length.map(|n| match p.prefix {
+            TypedPrefix::V4(v) => pfx_val(TypedPrefix::V4(v.resize(n))),
+            TypedPrefix::V6(v) => pfx_val(TypedPrefix::V6(v.resize(n))),
+        }))),
+        Fn::AggKey => {
+            // RoaAggregateKey is private; its Deserialize (= from_str) is reached through the public event type.
+            let ev = json!({"type": "roas_updated", "resource_class_name": "0", "updates": {"aggregate_removed": [s]}});
+            guarded(|| serde_json::from_value::<krill::server::ca::CertAuthEvent>(ev).ok().map(|e| {
+                let v = serde_json::to_value(&e).expect("serialize event");
+                let k = v["updates"]["aggregate_removed"][0].as_str().expect("key string").to_string();
+                let body = k.strip_prefix("AS").expect("AS prefix");
+                let (a, g) = match body.split_once('-') { Some((a, g)) => (a, Some(g)), None => (body, None) };
+                CVal::L(vec![CVal::N(a.parse().expect("asn")), CVal::opt_n(g.map(|g| g.parse().expect("group")))])
+            }))
+        }
+        Fn::Ident => guarded(|| Ident::from_bytes(input).ok().map(|i| CVal::B(i.as_bytes().to_vec()))),
+        Fn::StrOrReplace => guarded(|| Some(CVal::B(Ident::from_str_or_replace(s).as_bytes().to_vec()))),
+        Fn::PushConverted => guarded(|| Some(CVal::B(Ident::builder(x_ident()).push_converted_str(s).finish().as_bytes().to_vec()))),
+        Fn::FromHandle => guarded(|| rpki::ca::idexchange::CaHandle::from_str(s).ok().map(|h| CVal::B(Ident::from_handle(&h).as_bytes().to_vec()))),
+        Fn::PushHandle => guarded(|| rpki::ca::idexchange::CaHandle::from_str(s).ok().map(|h| CVal::B(Ident::builder(x_ident()).push_handle(&h).finish().as_bytes().to_vec()))),
+        Fn::ToHandle => guarded(|| Ident::from_bytes(input).ok().and_then(|i| i.to_handle::<rpki::ca::idexchange::Myself>()).map(|h| CVal::B(h.as_str().as_bytes().to_vec()))),
+        Fn::SplitKey => {
+            let key = Ident::from_bytes(input).ok()?;
+            world.mem_seed += 1;
+            let seed = world.mem_seed;
+            guarded(move || c16x::split_storage_key_via_queue(key, seed).map(|(ts, name)| CVal::L(vec![CVal::N(ts), CVal::B(name)])))
+        }
+        Fn::CertName => {
+            let uri = rpki::uri::Rsync::from_str(&format!("rsync://h/m/{s}")).ok()?;
+            if uri.path() != s { return None }
+            let cert = world.cert.clone();
+            guarded(move || krill::api::ca::ReceivedCert::create(cert, uri, Default::default(), Default::default()).ok()
+                .map(|c| CVal::B(AsRef::<str>::as_ref(&c.name).as_bytes().to_vec())))
+        }
+        Fn::RpkiAsn => guarded(|| Asn::from_str(s).ok().map(|a| CVal::N(a.into_u32() as u128))),
+        Fn::Aspa => guarded(|| krill::api::aspa::AspaDefinition::from_str(s).ok().map(|d| CVal::L(vec![
+            CVal::N(d.customer.into_u32() as u128), CVal::L(d.providers.iter().map(|p| CVal::N(p.into_u32() as u128)).collect())]))),
+        Fn::BgpsecKey => guarded(|| krill::api::bgpsec::BgpSecAsnKey::from_str(s).ok().map(|k| CVal::L(vec![
+            CVal::N(k.asn.into_u32() as u128), CVal::B(k.key.as_slice().to_vec())]))),
+    };
+    Some(r)
+}
+
+//------------------------------------------------------------------ generators
+
+const MULTIBYTE: [&str; 12] = ["é", "€", "𝄞", "\u{a0}", "\u{2003}", "\u{85}", "\u{3000}", "ß", "\u{200b}", "\u{1680}", "\u{205f}", "\u{feff}"];
+const SEPARATORS: [&str; 22] = ["-", "=", ">", "=>", "/", ".", ":", "::", ",", "#", "+", "_", "\\", " ", "\t", "\n", "\r", "\r\n", "<none>", "AS", "as", "%"];
+const NUMBERS: [&str; 30] = ["0", "1", "7", "8", "9", "24", "31", "32", "33", "64", "127", "128", "129", "255", "256", "65535", "65536",
+    "4294967295", "4294967296", "18446744073709551616", "340282366920938463463374607431768211455", "340282366920938463463374607431768211456",
+    "00", "000008", "+8", "-1", "+", "-0", "0x10", "1e3"];
+
+fn rand_char_str(rng: &mut Rng) -> String {
+    match rng.below(10) {
+        0..=2 => rng.pick(&MULTIBYTE).to_string(),
+        3..=5 => rng.pick(&SEPARATORS).to_string(),
+        6 => rng.pick(&NUMBERS).to_string(),
+        7 => ((b'a' + rng.below(26) as u8) as char).to_string(),
+        8 => ((b'0' + rng.below(10) as u8) as char).to_string(),
+        _ => char::from_u32(rng.below(0x2100) as u32).filter(|c| *c != '\0').unwrap_or('x').to_string(),
+    }
+}
+
+fn char_positions(s: &str) -> Vec<usize> { s.char_indices().map(|(i, _)| i).chain(std::iter::once(s.len())).collect() }
+
+/// One structured mutation of a (mostly valid) notation.
+fn mutate_once(rng: &mut Rng, s: &str) -> String {
+    let pos = char_positions(s);
+    let at = |rng: &mut Rng| -> usize {
+        // favour the positions where the code slices: 0..3 and around separators
+        if rng.chance(35) { *pos.get(rng.below(4.min(pos.len() as u64)) as usize).unwrap_or(&0) }
+        else if rng.chance(30) {
+            let seps: Vec<usize> = s.char_indices().filter(|(_, c)| "-=>/.:,#+ ".contains(*c)).map(|(i, _)| i).collect();
+            if seps.is_empty() { *rng.pick(&pos) } else { let i = *rng.pick(&seps); if rng.chance(50) { i } else { i + 1 } }
+        } else { *rng.pick(&pos) }
+    };
+    match rng.below(12) {
+        0 | 1 | 2 => { let i = at(rng); format!("{}{}{}", &s[..i], rand_char_str(rng), &s[i..]) }      // insert
+        3 | 4 => {                                                                                       // replace one char
+            if s.is_empty() { return rand_char_str(rng) }
+            let cs: Vec<(usize, char)> = s.char_indices().collect();
+            let (i, c) = cs[rng.below(cs.len() as u64) as usize];
+            format!("{}{}{}", &s[..i], rand_char_str(rng), &s[i + c.len_utf8()..])
+        }
+        5 => {                                                                                           // delete one char
+            if s.is_empty() { return String::new() }
+            let cs: Vec<(usize, char)> = s.char_indices().collect();
+            let (i, c) = cs[rng.below(cs.len() as u64) as usize];
+            format!("{}{}", &s[..i], &s[i + c.len_utf8()..])
+        }
+        6 | 7 => {                                                                                       // replace a number
+            let bytes = s.as_bytes();
+            let mut runs = Vec::new();
+            let mut i = 0;
+            while i < bytes.len() {
+                if bytes[i].is_ascii_digit() { let st = i; while i < bytes.len() && bytes[i].is_ascii_digit() { i += 1 } runs.push((st, i)); } else { i += 1 }
+            }
+            if runs.is_empty() { return format!("{s}{}", rng.pick(&NUMBERS)) }
+            let (a, b) = *rng.pick(&runs);
+            format!("{}{}{}", &s[..a], rng.pick(&NUMBERS), &s[b..])
+        }
+        8 => { let i = at(rng); s[..i].to_string() }                                                     // truncate
+        9 => { let i = at(rng); let j = at(rng); let (a, b) = (i.min(j), i.max(j)); format!("{}{}{}", &s[..b], &s[a..b], &s[b..]) } // duplicate a piece
+        10 => { if rng.chance(50) { s.to_uppercase() } else { s.to_lowercase() } }
+        _ => { let i = at(rng); format!("{}{}{}", &s[..i], " ".repeat(rng.range(1, 3) as usize), &s[i..]) }
+    }
+}
+
+pub fn mutate(rng: &mut Rng, s: &str) -> String {
+    let mut cur = s.to_string();
+    for _ in 0..rng.weighted(&[0, 55, 25, 12, 8]) { cur = mutate_once(rng, &cur); }
+    cur
+}
+
+pub fn random_string(rng: &mut Rng) -> String {
+    let n = rng.weighted(&[5, 10, 15, 15, 15, 10, 10, 5, 5, 5, 5]) as u64 + if rng.chance(10) { rng.below(40) } else { 0 };
+    match rng.below(3) {
+        0 => (0..n).map(|_| rand_char_str(rng)).collect(),
+        1 => { let b: Vec<u8> = (0..n * 2).map(|_| rng.below(256) as u8).collect(); String::from_utf8_lossy(&b).into_owned() }
+        _ => (0..n).map(|_| (32 + rng.below(95) as u8) as char).collect(),
+    }
+}
+
+
+/// A random *valid* notation for the function (None: only the seed list is used).
+fn gen_valid(f: Fn, rng: &mut Rng) -> Option<String> {
+    fn v4(rng: &mut Rng) -> String {
+        let len = *rng.pick(&[0u32, 1, 8, 16, 24, 31, 32, 7, 12, 25]);
+        let a = (rng.next() as u32) & if len == 0 { 0 } else { u32::MAX << (32 - len) };
+        format!("{}/{}", std::net::Ipv4Addr::from_bits(a), len)
+    }
+    fn v6(rng: &mut Rng) -> String {
+        let len = *rng.pick(&[0u32, 1, 16, 32, 48, 64, 96, 127, 128, 33]);
+        let a = (((rng.next() as u128) << 64) | rng.next() as u128) & if len == 0 { 0 } else { u128::MAX << (128 - len) };
+        let a = if rng.chance(30) { a & (0xffff_u128 << 112 | 0xffff) } else { a };
+        format!("{}/{}", std::net::Ipv6Addr::from_bits(a), len)
+    }
+    fn asn(rng: &mut Rng) -> String { match rng.below(4) { 0 => "0".into(), 1 => "4294967295".into(), _ => (rng.next() as u32 >> rng.below(31)).to_string() } }
+    fn payload(rng: &mut Rng) -> String {
+        let six = rng.chance(40);
+        let p = if six { v6(rng) } else { v4(rng) };
+        let len: u32 = p.rsplit('/').next().unwrap().parse().unwrap();
+        let top = if six { 128 } else { 32 };
+        let max = match rng.below(5) { 0 => String::new(), 1 => format!("-{len}"), 2 => format!("-{top}"), 3 => format!("-{}", rng.range(len as u64, top as u64)), _ => format!("-{}", rng.below(140)) };
+        let sp = |rng: &mut Rng| *rng.pick(&["", " ", "  ", "\t"]);
+        format!("{}{p}{}{max}{}=>{}{}{}", sp(rng), sp(rng), sp(rng), sp(rng), asn(rng), sp(rng))
+    }
+    fn ident(rng: &mut Rng) -> String {
+        let n = rng.range(1, 12);
+        let mut s: String = (0..n).map(|_| *rng.pick(&['a', 'b', 'Z', '0', '9', '+', '-', '_', '.', 'k'])).collect();
+        if s.starts_with('.') { s.replace_range(0..1, "d"); }
+        s
+    }
+    fn handle(rng: &mut Rng) -> String {
+        let n = if rng.chance(8) { rng.range(250, 255) } else { rng.range(1, 14) };
+        (0..n).map(|_| *rng.pick(&['a', 'Q', '7', '-', '_', '/', '\\', 'x', 'y'])).collect()
+    }
+    fn hex40(rng: &mut Rng) -> String { (0..40).map(|_| *rng.pick(&['0', '1', '9', 'a', 'f', 'A', 'F', '5'])).collect() }
+    Some(match f {
+        Fn::AsNumber => format!("{}{}{}", rng.pick(&["", " ", "\u{a0}"]), asn(rng), rng.pick(&["", " ", "\n"])),
+        Fn::TypedPrefix => if rng.chance(50) { v4(rng) } else { v6(rng) },
+        Fn::Ipv4Prefix => v4(rng),
+        Fn::Ipv6Prefix => v6(rng),
+        Fn::Payload | Fn::MaxLenValid | Fn::NrSpecific | Fn::Resize => payload(rng),
+        Fn::Announcement => { let p = if rng.chance(50) { v4(rng) } else { v6(rng) }; format!("{p} => {}", asn(rng)) }
+        Fn::Config => format!("{}{}", payload(rng), rng.pick(&["", "# c", " # two words ", "#", "#a#b"])),
+        Fn::Updates => {
+            let n = rng.range(0, 5);
+            (0..n).map(|_| match rng.below(5) {
+                0 => format!("# {}", ident(rng)), 1 => String::new(),
+                2 => format!("R:{}{}", payload(rng), rng.pick(&["", " # old"])),
+                _ => format!("A: {}{}", payload(rng), rng.pick(&["", " # new", "#"])),
+            } + *rng.pick(&["\n", "\n", "\r\n"])).collect()
+        }
+        Fn::AggKey => if rng.chance(50) { format!("AS{}", asn(rng)) } else { format!("AS{}-{}", asn(rng), asn(rng)) },
+        Fn::Ident | Fn::StrOrReplace | Fn::PushConverted => ident(rng),
+        Fn::FromHandle | Fn::PushHandle => handle(rng),
+        Fn::ToHandle => if rng.chance(50) { ident(rng) } else { handle(rng).replace(['/', '\\'], "+") },
+        Fn::SplitKey => format!("{}{}-{}", rng.pick(&["", "", "+", "00"]), if rng.chance(20) { u128::MAX - rng.below(3) as u128 } else { rng.next() as u128 >> rng.below(64) }, ident(rng)),
+        Fn::CertName => { let d = rng.below(4); let mut s: String = (0..d).map(|_| format!("{}/", ident(rng))).collect(); s.push_str(&ident(rng)); s.push_str(*rng.pick(&[".cer", ".cer", ".cer", ".roa", ""])); s }
+        Fn::RpkiAsn => format!("{}{}", rng.pick(&["", "AS", "as", "As"]), asn(rng)),
+        Fn::Aspa => {
+            let n = rng.below(5);
+            let provs: Vec<String> = (0..n).map(|_| format!("{}{}{}", rng.pick(&["", " ", "AS"]), rng.below(70000), rng.pick(&["", " "]))).collect();
+            format!("{}{} => {}", rng.pick(&["", "AS"]), asn(rng), if provs.is_empty() { "<none>".to_string() } else { provs.join(",") })
+        }
+        Fn::BgpsecKey => format!("ROUTER-{:08X}-{}", rng.next() as u32 >> rng.below(32), hex40(rng)),
+    })
+}
+
+fn seeds(f: Fn) -> Vec<String> {
+    let v4 = ["10.0.0.0/8", "192.168.0.0/16", "0.0.0.0/0", "255.255.255.255/32", "10.1.2.3/24", "1.2.3.4/32", "128.0.0.0/1", "10.0.0.0/+8", "10.0.0.0/008"];
+    let v6 = ["2001:db8::/32", "::/0", "::1/128", "2001:db8:1:2:3:4:5:6/64", "::ffff:1.2.3.4/96", "1::/16", "fe80::1:2/128", "1:2:3:4:5:6:7::/112", "::1.2.3.4/128", "FFFF:ffff::/32", "2001:db8::/0"];
+    let payloads = ["192.168.0.0/16 => 64496", "10.0.0.0/8-24 => 1", "2001:db8::/32-48 => 65000", "::/0-128 => 0", "10.0.0.0/24-8 => 1",
+        "10.0.0.0/8-32=>4294967295", " 10.0.0.0/8 - 9 => 0 ", "::/0-129 => 1", "2001:db8::/32-32 => AS1", "10.0.0.0/8-9-10 => 1", "0.0.0.0/0-32 => 0", "::/1-128 => 7", "::/0-127 => 7"];
+    let s = |xs: &[&str]| xs.iter().map(|x| x.to_string()).collect::<Vec<_>>();
+    match f {
+        Fn::AsNumber => s(&["64496", " 0 ", "4294967295", "4294967296", "+1", "\u{a0}12\u{2003}"]),
+        Fn::TypedPrefix => { let mut v = s(&v4); v.extend(s(&v6)); v.push(" 10.0.0.0/8 ".into()); v }
+        Fn::Ipv4Prefix => s(&v4),
+        Fn::Ipv6Prefix => s(&v6),
+        Fn::Payload | Fn::Announcement => s(&payloads),
+        Fn::Config => payloads.iter().map(|p| format!("{p} # my comment")).chain(payloads.iter().map(|p| format!("{p}#a#b "))).chain(s(&payloads)).collect(),
+        Fn::Updates => vec![
+            "A: 10.0.0.0/8 => 1\nR: 192.168.0.0/16-24 => 2 # gone\n".into(), "# comment\n\nA: ::/0-128 => 0 # c\r\nR: 10.0.0.0/24 => 3\r\n".into(),
+            "A:10.0.0.0/8=>1".into(), "R: 10.0.0.0/8 => 1\nX: nope".into(), "A: 10.0.0.0/8 => 1\r".into(), "\n\n".into(), "A: 2001:db8::/32-48 => 65000\nA: 10.0.0.0/8-9 => 1 # x\nR: 1.0.0.0/8 => 1".into()],
+        Fn::MaxLenValid | Fn::NrSpecific | Fn::Resize => {
+            let mut v = Vec::new();
+            for (pfx, lens) in [("0.0.0.0", [0u32, 1, 8, 24, 31, 32]), ("::", [0, 1, 32, 64, 127, 128])] {
+                for l in lens { for m in [0u32, 1, 7, 8, 9, 24, 31, 32, 33, 64, 96, 97, 127, 128, 129, 200, 255] { v.push(format!("{pfx}/{l}-{m} => 1")); } v.push(format!("{pfx}/{l} => 1")); }
+            }
+            v.extend(s(&payloads)); v
+        }
+        Fn::AggKey => s(&["AS64496", "AS64496-2", "AS0", "AS4294967295-4294967295", "AS 12", "AS1-2-3", "AS", "A", "AS-1", "as1", "AS1-"]),
+        Fn::Ident | Fn::StrOrReplace | Fn::PushConverted => s(&["abc", "a.b-c_d+e", ".hidden", "_x", "+x", "", "a/b", "x.", "A9", "a b", "..", "-", "ca.json"]),
+        Fn::FromHandle | Fn::PushHandle | Fn::ToHandle => {
+            let mut v = s(&["ca", "a/b", "a\\b", "A-b_9", "/", "//a//", "a+b", "a.b", "", "testbed", "a/b\\c/d"]);
+            for n in [254usize, 255, 256, 257] { v.push("h".repeat(n)); v.push(format!("{}/", "h".repeat(n - 1))); }
+            v
+        }
+        Fn::SplitKey => s(&["12-foo", "0-a", "+5-x", "12-", "-foo", "12-a-b", "340282366920938463463374607431768211455-x", "340282366920938463463374607431768211456-x",
+            "12-.x", "1_2-x", "12", "12--", "0012-sync_ca_with_parent_p", "1700000000000-queue_start_tasks", "a-b", "--"]),
+        Fn::CertName => s(&["a/b/xyz.cer", "x.cer", "ab.cer", "abcde.cer", "a/.cer", "a/b.cer", "dir/", ".cer", "a/b/c.CER", "", "a/b/", "a/b/cer", "a//x.cer", "0/ABCDEF.cer", "x.cer/"]),
+        Fn::RpkiAsn => s(&["AS64496", "as1", "64496", "aS0", "AS", "A", "AS4294967296", "4294967295", "AS+1", "ASAS1", "A1", "1", "12", "123"]),
+        Fn::Aspa => s(&["65000 => 65001, 65002", "AS65000 => <none>", "65000", "65000 => 1,1", "1 => 2 => 3", "AS1=>AS2,AS3 , as4", " 1 => <none> ", "1 => ", "1 => 3,2,1", "€ => 1", "1 => €"]),
+        Fn::BgpsecKey => s(&["ROUTER-0000FDE8-17316903F0671229E8808BA8E8AB0105FA915A07", "ROUTER-FDE8-17316903f0671229e8808ba8e8ab0105fa915a07",
+            "ROUTER-0-17316903F0671229E8808BA8E8AB0105FA915A07", "ROUTER-+1-+7316903F0671229E8808BA8E8AB0105FA915A07", "ROUTER-1-2-3", "ROUTER-", "router-1-17316903F0671229E8808BA8E8AB0105FA915A07",
+            "ROUTER-100000000-17316903F0671229E8808BA8E8AB0105FA915A07", "ROUTER-1-17316903F0671229E8808BA8E8AB0105FA915A"]),
+    }
+}
+
+fn main() {
+    let args = &Args::parse("c16");
+    std::process::exit(run(args));
+}
+
+fn debug_build_probe() -> (bool, bool) {
+    let ovf = guarded(|| { let x: u8 = std::hint::black_box(255); let y: u8 = std::hint::black_box(1); std::hint::black_box(x + y) }).is_err();
+    (ovf, cfg!(debug_assertions))
+}
+
+fn run(args: &Args) -> i32 {
+    install_hook();
+    let mut rng = Rng::new(args.seed);
+    let per_fn = args.get_u64("per_fn", if args.thorough() { 20000 } else { 1500 });
+    let repo = std::env::var("KV_REPO").unwrap_or_else(|_| "/repo".into());
+    let (ovf, dbg_assert) = debug_build_probe();
+    if ovf != dbg_assert { eprintln!("c16: overflow checks ({ovf}) and debug assertions ({dbg_assert}) differ: unsupported build profile"); return 2 }
+    let dbg_build = ovf;
+
+    let cert_der = std::fs::read(format!("{repo}/test-resources/ta.cer")).expect("read test-resources/ta.cer");
+    let mut world = World { cert: rpki::repository::cert::Cert::decode(bytes::Bytes::from(cert_der)).expect("decode ta.cer"), mem_seed: args.seed << 20 };
+
+    let header = "From KV Require Import base.Tac parse.Str parse.ParseCheck.\nOpen Scope N_scope.";
+    let footer = "Eval vm_compute in (failing agrees base_index cases).\nEval vm_compute in (failing c16_ok base_index cases).";
+    let mut w = CaseWriter::new(&args.out, header, "list case", footer, 500);
+    let mut jsonl = std::fs::File::create(args.out.join("cases.jsonl")).expect("jsonl");
+    let mut fn_dist: BTreeMap<String, BTreeMap<String, u64>> = BTreeMap::new();
+    let mut origin_dist: BTreeMap<String, u64> = BTreeMap::new();
+    let mut distinct: BTreeSet<(Fn, Vec<u8>)> = BTreeSet::new();
+    let mut samples: Vec<Value> = Vec::new();
+    let mut impl_failures: Vec<Value> = Vec::new();
+    let mut debug_only: Vec<Value> = Vec::new();
+    let mut panic_sites: BTreeMap<String, u64> = BTreeMap::new();
+    let mut multibyte_inputs = 0u64;
+
+    for f in ALL_FNS {
+        let seed_list = seeds(f);
+        let mut emitted = 0u64;
+        let mut attempts = 0u64;
+        let mut rng_f = rng.fork();
+        while emitted < per_fn && attempts < per_fn * 20 {
+            attempts += 1;
+            // the seeds themselves first, then 70 % structured mutations, 30 % random
+            let (input, origin): (Vec<u8>, &str) = if (attempts as usize) <= seed_list.len() {
+                (seed_list[attempts as usize - 1].clone().into_bytes(), "seed")
+            } else if rng_f.chance(70) {
+                // base: a hand-written seed or a freshly generated valid notation; the latter is also used unmutated
+                let generated = if rng_f.chance(60) { gen_valid(f, &mut rng_f) } else { None };
+                match generated {
+                    Some(g) if rng_f.chance(35) => (g.into_bytes(), "generated-valid"),
+                    Some(g) => (mutate(&mut rng_f, &g).into_bytes(), "structured-mutation"),
+                    None => { let base = rng_f.pick(&seed_list).clone(); (mutate(&mut rng_f, &base).into_bytes(), "structured-mutation") }
+                }
+            } else if f.takes_bytes() && rng_f.chance(50) {
+                ((0..rng_f.below(12)).map(|_| rng_f.below(256) as u8).collect(), "random-bytes")
+            } else {
+                (random_string(&mut rng_f).into_bytes(), "random-string")
+            };
+            let Some(res) = call(&mut world, f, &input) else { continue };
+            let obs = match res {
+                Ok(Some(v)) => Obs::Ok(v),
+                Ok(None) => Obs::Err,
+                Err(c) => if is_debug_only(&c) && dbg_build { Obs::DbgPanic(c) } else { Obs::Panic(c) },
+            };
+            let index = w.total;
+            *fn_dist.entry(format!("{f:?}")).or_default().entry(obs.class().to_string()).or_default() += 1;
+            *origin_dist.entry(origin.to_string()).or_default() += 1;
+            if input.iter().any(|b| *b >= 0x80) { multibyte_inputs += 1 }
+            if !input.is_empty() { distinct.insert((f, input.clone())); }
+            let mut rec = json!({"index": index, "fn": format!("{f:?}"), "origin": origin, "input_hex": hex(&input),
+                "input_lossy": String::from_utf8_lossy(&input), "observed": obs.class()});
+            match &obs {
+                Obs::Ok(v) => { rec["value"] = json!(v.coq()); }
+                Obs::Panic(c) | Obs::DbgPanic(c) => {
+                    rec["panic_message"] = json!(c.msg); rec["class"] = json!({"panic_site": c.site, "debug_only": matches!(obs, Obs::DbgPanic(_))});
+                    *panic_sites.entry(format!("{} [{}]", c.site, obs.class())).or_default() += 1;
+                    let list = if matches!(obs, Obs::Panic(_)) { &mut impl_failures } else { &mut debug_only };
+                    if list.iter().filter(|r: &&Value| r["class"]["panic_site"] == json!(c.site)).count() < 3 {
+                        list.push(json!({"index": index, "class": {"panic_site": c.site, "fn": format!("{f:?}")},
+                            "what": format!("{f:?} panicked: {} (input hex {})", c.msg, hex(&input)), "input_hex": hex(&input), "input_lossy": String::from_utf8_lossy(&input)}));
+                    }
+                }
+                Obs::Err => {}
+            }
+            writeln!(jsonl, "{rec}").unwrap();
+            if samples.len() < 8 && index % 3001 == 17 { samples.push(rec); }
+            w.push(format!("mkCase {} {} {} {}", f.coq(), coq_bytes(&input), dbg_build, obs.coq()));
+            emitted += 1;
+        }
+    }
+    w.flush();
+    let part_a_cases = w.total;
+
+    // ---- exploration beyond the model (panics there are handed to the driver as impl_failures; panics of
+    // part A are reported through the Coq oracle: c16_ok fails on the case)
+    let explore = c16x::explore(args, &mut rng, &repo);
+    let a_panics = impl_failures;
+    let x_panics = explore.failures.clone();
+
+    println!("c16: part A {} cases over {} functions ({} with multi-byte input); debug build = {}", part_a_cases, ALL_FNS.len(), multibyte_inputs, dbg_build);
+    println!("c16: origin distribution {:?}", origin_dist);
+    for (k, v) in &fn_dist { println!("c16:   {k}: {v:?}"); }
+    println!("c16: panic sites (part A) {:?}", panic_sites);
+    println!("c16: exploration {}", serde_json::to_string(&explore.distribution).unwrap());
+    println!("c16: exploration panics {}", x_panics.len());
+
+    write_json(&args.out.join("stats.json"), &json!({
+        "scenario": "c16", "seed": args.seed, "tier": args.tier,
+        "evaluations": part_a_cases, "distinct_nontrivial": distinct.len(),
+        "rule": "part A: per modelled function the hand-written seed notations, then 70 % structured mutations of them (insert/replace/delete of multi-byte characters, separators and whitespace preferably at byte offsets 0-3 and next to separators; numbers replaced by boundary values, signs, leading zeros; truncation, duplication, case change) and 30 % random strings / bytes; one case = one call of the real function under catch_unwind; non-trivial = non-empty input; distinct = distinct (function, input bytes). Exploration (not evaluated in Coq): see exploration_distribution",
+        "per_fn": per_fn, "debug_build": dbg_build,
+        "fn_outcome_distribution": fn_dist, "origin_distribution": origin_dist, "multibyte_inputs": multibyte_inputs,
+        "panic_site_distribution": panic_sites,
+        "exploration_distribution": explore.distribution,
+        "exploration_evaluations": explore.evaluations,
+        "model_panics_observed": a_panics, "debug_only_panics": debug_only, "exploration_debug_only_panics": explore.debug_only,
+        "impl_failures": x_panics,
+        "samples": samples,
+    }));
+    0
 }
